@@ -920,4 +920,16 @@ theorem selection_with_max_view (key : Nat) (old : QMsg) (h1 : old.key = key) (h
   rw [e]
   simp [h1, h2]
 
+/-! ## The noise handshake's scratch buffer (`noise/stream.rs`, `Stream::handshake`) -/
+
+/-- `&mut buf[..n]` with `n = u16::from_le_bytes(msg_size) as usize` — the slice the handshake reads a peer's message
+into, before any authentication — is in bounds for every announced length: `HANDSHAKE_BUF_LEN` is regenerated from
+the buffer's declaration on every run. `none` = the slice panics. -/
+def handshakeReadSlice (n : Nat) : Option Nat := if n ≤ HANDSHAKE_BUF_LEN then some n else none
+
+theorem handshake_read_in_bounds (lo hi : Nat) (hlo : lo < 256) (hhi : hi < 256) :
+    handshakeReadSlice (lo + 256 * hi) = some (lo + 256 * hi) := by
+  unfold handshakeReadSlice HANDSHAKE_BUF_LEN
+  rw [if_pos (by omega)]
+
 end EraVerif.Props.C10
